@@ -12,8 +12,24 @@ from .c04 import check_bool_before_int
 from .c11 import interval_from_conditions
 
 
+_RESULT_HELPERS: dict[str, bool] = {}  # module functions whose every return is ValidationResult(valid=<same const>)
+
+
+def _learn_result_helpers(cm) -> None:
+    _RESULT_HELPERS.clear()
+    for q, fi in cm.functions.items():
+        if "." in q:
+            continue
+        rets = [r for r in walk_no_nested(fi.node) if isinstance(r, ast.Return)]
+        vals = {_result_valid(r.value) for r in rets}
+        if rets and len(vals) == 1 and None not in vals:
+            _RESULT_HELPERS[q] = vals.pop()
+
+
 def _result_valid(node: ast.AST | None) -> bool | None:
-    """ValidationResult(valid=<const>) -> const ; else None"""
+    """ValidationResult(valid=<const>) -> const ; a call of a helper that always builds such a result -> that const; else None"""
+    if isinstance(node, ast.Call) and isinstance(node.func, ast.Name) and node.func.id in _RESULT_HELPERS:
+        return _RESULT_HELPERS[node.func.id]
     if isinstance(node, ast.Call) and ast.unparse(node.func) == "ValidationResult":
         for k in node.keywords:
             if k.arg == "valid" and isinstance(k.value, ast.Constant):
@@ -27,6 +43,7 @@ def check(run: Run) -> None:
     res = Resolver(run.project)
     cm = run.project.mod("core.constraints")
     vm = run.project.mod("core.validator")
+    _learn_result_helpers(cm)
     run.rule("R08.1", "chain shape: conflicts are checked first and reject; then every member is evaluated on the chain's own value on every iteration (no skip, no early accept); a failing member's result is returned; the only accepting return follows the completed loop", 5)
     run.rule("R08.2", "members are pure: no evaluate() of a Constraint stores into self or the value or calls a mutator on them (so members commute and the verdict is order-independent)", 15)
     run.rule("R08.3", "comparator shapes: RANGE rejects exactly `v < min or v > max`; MAX_LENGTH rejects `len > max`; MIN_LENGTH rejects `len < min`; both length constraints reject non str|list first; REQ rejects None and \"\"; CONST rejects `!=`", 8)
@@ -280,6 +297,25 @@ def _comparators(run: Run, cm) -> None:
 def _registry(run: Run, res: Resolver, cm) -> None:
     parse = cm.func("ConstraintChain.parse")
     constructed = {ast.unparse(n.func) for n in walk_no_nested(parse.node) if isinstance(n, ast.Call) and isinstance(n.func, ast.Name)}
+    # ... in helpers of the same module that parse calls (extracted argument parsers) ...
+    for n in walk_no_nested(parse.node):
+        if isinstance(n, ast.Call):
+            for c in res.resolve_call(parse, n):
+                if c.kind == "repo" and c.func is not None and c.func.module is cm and c.func is not parse:
+                    constructed |= {ast.unparse(x.func) for x in walk_no_nested(c.func.node) if isinstance(x, ast.Call) and isinstance(x.func, ast.Name)}
+    # ... and through a keyword -> class table: `cls = TABLE.get(part)` / `TABLE[part]` followed by `cls()`
+    for n in walk_no_nested(parse.node):
+        if isinstance(n, ast.Assign) and len(n.targets) == 1 and isinstance(n.targets[0], ast.Name):
+            v = n.value
+            tname = None
+            if isinstance(v, ast.Call) and isinstance(v.func, ast.Attribute) and v.func.attr == "get" and isinstance(v.func.value, ast.Name):
+                tname = v.func.value.id
+            elif isinstance(v, ast.Subscript) and isinstance(v.value, ast.Name):
+                tname = v.value.id
+            if tname and cm.has_const(tname) and any(isinstance(c, ast.Call) and isinstance(c.func, ast.Name) and c.func.id == n.targets[0].id for c in walk_no_nested(parse.node)):
+                tnode = cm.const_node(tname)
+                if isinstance(tnode, ast.Dict):
+                    constructed |= {x.id for x in tnode.values if isinstance(x, ast.Name)}
     for ci in _constraint_classes(res, cm):
         ok = ci.name in constructed
         run.instance("R08.5", cm.loc(ci.node), f"{ci.name} is constructible from ConstraintChain.parse", ok=ok)
@@ -325,37 +361,116 @@ def _document_level(run: Run, vm, rule: str = "R08.6") -> None:
     uf = normalise_locals(vm.func("Validator._validate_unknown_fields"), [
         ("unknown", lambda v: isinstance(v, ast.BinOp) and isinstance(v.op, ast.Sub) and isinstance(v.left, ast.Name) and isinstance(v.right, ast.Name)),
     ])
-    cfg = CFG(uf.node)
-    members = ["REJECT", "WARN", "IGNORE"]
-    appends = [n for n in cfg.nodes if n.ast is not None and any(isinstance(c, ast.Call) and isinstance(c.func, ast.Attribute) and c.func.attr == "append" for c in ast.walk(n.ast))]
-    seen: dict[str, list] = {}
-    for a in appends:
-        pol = None
-        for t, val in branch_conditions(cfg, a.id):
-            if isinstance(t, ast.Compare) and isinstance(t.ops[0], ast.Eq) and val is True and "UnknownFieldPolicy." in ast.unparse(t):
-                pol = ast.unparse(t).split("UnknownFieldPolicy.")[1].split()[0].strip(")")
-        call = [c for c in ast.walk(a.ast) if isinstance(c, ast.Call) and ast.unparse(c.func) == "ValidationError"]  # type: ignore[arg-type]
-        if pol and call:
-            kw = {k.arg: k.value for k in call[0].keywords}
-            seen.setdefault(pol, []).append(kw)
+    # a small structured interpreter over the function body: for each policy member, which ValidationError(...) are built for
+    # an unknown field, with which severity, and are they built for EVERY element of sorted(unknown)?
+    pparam = next((a.arg for a in uf.node.args.args if "policy" in a.arg), None)  # type: ignore[attr-defined]
+    if pparam is None:
+        raise AnalysisError("_validate_unknown_fields: policy parameter not found")
+
+    def const_of(e, env):
+        if isinstance(e, ast.Constant):
+            return e.value
+        if isinstance(e, ast.Name) and e.id in env:
+            return env[e.id]
+        return None
+
+    def test_value(t, P):
+        if isinstance(t, ast.Compare) and len(t.ops) == 1 and is_name(t.left, pparam) and ast.unparse(t.comparators[0]).startswith("UnknownFieldPolicy."):
+            m = ast.unparse(t.comparators[0]).split(".")[-1]
+            if isinstance(t.ops[0], (ast.Eq, ast.Is)):
+                return m == P
+            if isinstance(t.ops[0], (ast.NotEq, ast.IsNot)):
+                return m != P
+        return None
+
+    def productions(P):
+        prods = []  # (severity const, names the loop variable, iterates sorted(unknown) fully)
+
+        def record(call, env, loopvar, full):
+            kw = {k.arg: k.value for k in call.keywords}
+            sev = const_of(kw.get("severity"), env) if "severity" in kw else "error"
+            fp = kw.get("field_path")
+            names = loopvar is not None and fp is not None and any(isinstance(x, ast.Name) and x.id == loopvar for x in ast.walk(fp))
+            prods.append((sev, names, full))
+
+        def scan_expr(e, env, loopvar, full):
+            for c in ast.walk(e):
+                if isinstance(c, (ast.ListComp, ast.GeneratorExp)) and len(c.generators) == 1:
+                    g = c.generators[0]
+                    full2 = ast.unparse(g.iter) == "sorted(unknown)" and not g.ifs
+                    lv = g.target.id if isinstance(g.target, ast.Name) else None
+                    for cc in ast.walk(c.elt):
+                        if isinstance(cc, ast.Call) and ast.unparse(cc.func) == "ValidationError":
+                            record(cc, env, lv, full2)
+                    return
+            for c in ast.walk(e):
+                if isinstance(c, ast.Call) and ast.unparse(c.func) == "ValidationError":
+                    record(c, env, loopvar, full)
+
+        def run_block(stmts, env, loopvar, full) -> bool:
+            """returns True when the block definitely returned"""
+            for st in stmts:
+                if isinstance(st, ast.Assign):
+                    tg = st.targets[0]
+                    if isinstance(tg, ast.Name):
+                        v = const_of(st.value, env)
+                        if v is not None or isinstance(st.value, ast.Constant):
+                            env[tg.id] = v
+                        else:
+                            env.pop(tg.id, None)
+                    elif isinstance(tg, ast.Tuple) and isinstance(st.value, ast.Tuple) and len(tg.elts) == len(st.value.elts):
+                        for t2, v2 in zip(tg.elts, st.value.elts):
+                            if isinstance(t2, ast.Name):
+                                cv = const_of(v2, env)
+                                if cv is not None:
+                                    env[t2.id] = cv
+                                else:
+                                    env.pop(t2.id, None)
+                elif isinstance(st, ast.If):
+                    tv = test_value(st.test, P)
+                    if tv is True:
+                        if run_block(st.body, env, loopvar, full):
+                            return True
+                    elif tv is False:
+                        if run_block(st.orelse, env, loopvar, full):
+                            return True
+                    else:
+                        # unknown test (e.g. `if not unknown: return []`): both sides, on copies
+                        r1 = run_block(st.body, dict(env), loopvar, full)
+                        r2 = run_block(st.orelse, dict(env), loopvar, full)
+                        if r1 and r2:
+                            return True
+                elif isinstance(st, (ast.For, ast.AsyncFor)):
+                    full2 = ast.unparse(st.iter) == "sorted(unknown)" and not any(isinstance(x, (ast.Break, ast.Continue)) for b in st.body for x in ast.walk(b)) and not any(isinstance(b, ast.If) for b in st.body)
+                    lv = st.target.id if isinstance(st.target, ast.Name) else None
+                    run_block(st.body, dict(env), lv, full2)
+                elif isinstance(st, ast.Return):
+                    if st.value is not None:
+                        scan_expr(st.value, env, loopvar, full)
+                    return True
+                elif isinstance(st, ast.Expr):
+                    scan_expr(st.value, env, loopvar, full)
+            return False
+
+        run_block([x for x in uf.node.body if not (isinstance(x, ast.Expr) and isinstance(x.value, ast.Constant))], {}, None, False)  # type: ignore[attr-defined]
+        return prods
+
     want = {"REJECT": "error", "WARN": "warning"}
     for pol, sev in want.items():
-        kws = seen.get(pol, [])
-        ok = len(kws) == 1 and isinstance(kws[0].get("severity"), ast.Constant) and kws[0]["severity"].value == sev and "field_name" in ast.unparse(kws[0].get("field_path", ast.Constant("")))
-        run.instance(rule, vm.loc(uf.node), f"_validate_unknown_fields: {pol} appends severity={sev!r} with the field's name in field_path", ok=ok)
+        prods = productions(pol)
+        ok = len(prods) == 1 and prods[0][0] == sev and prods[0][1]
+        run.instance(rule, vm.loc(uf.node), f"_validate_unknown_fields: {pol} builds {[(p[0], p[1]) for p in prods]} per unknown field (want one entry of severity {sev!r} naming the field)", ok=ok)
         if not ok:
             run.violation(rule, vm, uf.qualname, f"policy {pol}", f"under UNKNOWN_FIELDS::{pol} an unknown field does not produce exactly one entry of severity {sev!r} naming the field", line=uf.node.lineno)
-    ok = "IGNORE" not in seen
+        full = bool(prods) and all(p[2] for p in prods)
+        run.instance(rule, vm.loc(uf.node), f"every unknown field is reported under {pol}: entries are built for each element of sorted(unknown), without filter", ok=full)
+        if not full:
+            run.violation(rule, vm, uf.qualname, "sorted(unknown)" if prods else f"no entries under {pol}", "not every unknown field is reported (filtered / truncated / unsorted iteration)")
+    ig = productions("IGNORE")
+    ok = not ig
     run.instance(rule, vm.loc(uf.node), "_validate_unknown_fields: IGNORE appends nothing", ok=ok)
     if not ok:
         run.violation(rule, vm, uf.qualname, "policy IGNORE", "UNKNOWN_FIELDS::IGNORE reports something")
-    # every unknown field is reported: loop over sorted(unknown) without filter / break
-    for n in walk_no_nested(uf.node):
-        if isinstance(n, ast.For) and "unknown" in ast.unparse(n.iter):
-            ok = ast.unparse(n.iter) == "sorted(unknown)" and not any(isinstance(x, (ast.Break, ast.Continue, ast.If)) for st in n.body for x in ast.walk(st))
-            run.instance(rule, vm.loc(n), f"every unknown field is reported: `for ... in {ast.unparse(n.iter)}` without filter", ok=ok)
-            if not ok:
-                run.violation(rule, vm, uf.qualname, n.iter if ast.unparse(n.iter) != "sorted(unknown)" else n, "not every unknown field is reported (filtered / truncated / unsorted iteration)")
     unk = [n.value for n in walk_no_nested(uf.node) if isinstance(n, ast.Assign) and any(is_name(t, "unknown") for t in n.targets)]
     ok = len(unk) == 1 and ast.unparse(unk[0]) == "document_fields - schema_fields"
     run.instance(rule, vm.loc(uf.node), "unknown = document_fields - schema_fields", ok=ok)
@@ -372,9 +487,17 @@ def _document_level(run: Run, vm, rule: str = "R08.6") -> None:
     cfg = CFG(vs.node)
     fb_ok = False
     default_ok = False
-    for n in walk_no_nested(vs.node):
+    # the resolution of the policy may live in a Validator helper that _validate_section calls with the section schema
+    policy_helpers = []
+    for c in walk_no_nested(vs.node):
+        if isinstance(c, ast.Call) and isinstance(c.func, ast.Attribute) and isinstance(c.func.value, ast.Name) and c.func.value.id in ("self", "Validator", "cls"):
+            q = f"Validator.{c.func.attr}"
+            if vm.has_func(q) and "UnknownFieldPolicy" in ast.unparse(vm.func(q).node) and c.func.attr != "_validate_unknown_fields":
+                policy_helpers.append((c, vm.func(q)))
+    search_nodes = list(walk_no_nested(vs.node)) + [n for _c, h in policy_helpers for n in walk_no_nested(h.node)]
+    for n in search_nodes:
         if isinstance(n, ast.ExceptHandler) and n.type is not None and "ValueError" in ast.unparse(n.type):
-            if any(isinstance(s, ast.Assign) and ast.unparse(s.value) == "UnknownFieldPolicy.REJECT" for s in n.body):
+            if any(isinstance(s, (ast.Assign, ast.Return)) and s.value is not None and ast.unparse(s.value) == "UnknownFieldPolicy.REJECT" for s in n.body):
                 fb_ok = True
         if isinstance(n, ast.IfExp) and isinstance(n.orelse, ast.Constant) and n.orelse.value == "REJECT" and "unknown_fields" in ast.unparse(n.body):
             default_ok = True
@@ -396,6 +519,15 @@ def _document_level(run: Run, vm, rule: str = "R08.6") -> None:
                     in_handler = True
                 cur = getattr(cur, "_parent", None)
             from_schema = isinstance(v, ast.Call) and ast.unparse(v.func) == "UnknownFieldPolicy" and len(v.args) == 1
+            # ... or the result of a helper that only sees the section schema and only returns such conversions / the fail-safe
+            for c, h in policy_helpers:
+                if v is c:
+                    hp = [a.arg for a in h.node.args.args if a.arg not in ("self", "cls")]
+                    only_schema = all(isinstance(a, ast.Name) and "schema" in a.id for a in c.args) and not c.keywords and all("schema" in x for x in hp)
+                    rets = [r for r in walk_no_nested(h.node) if isinstance(r, ast.Return) and r.value is not None]
+                    good = all((isinstance(r.value, ast.Call) and ast.unparse(r.value.func) == "UnknownFieldPolicy" and len(r.value.args) == 1) or ast.unparse(r.value) == "UnknownFieldPolicy.REJECT" for r in rets)
+                    if only_schema and rets and good:
+                        from_schema = True
             fallback = ast.unparse(v) == "UnknownFieldPolicy.REJECT" and in_handler
             ok = from_schema or fallback
             run.instance(rule, vm.loc(a), f"_validate_section: `{norm(a)}` " + ("converts the schema's UNKNOWN_FIELDS value" if from_schema else ("is the fail-safe for an unparsable value" if fallback else "OVERRIDES the schema's policy")), ok=ok)
@@ -512,6 +644,11 @@ def _enum_shape(run: Run, cm) -> None:
         for c in ast.walk(rn.ast):
             if isinstance(c, ast.keyword) and c.arg == "code" and isinstance(c.value, ast.Constant):
                 code = c.value.value
+            # a result-building helper called positionally: the argument bound to its `code` parameter
+            if isinstance(c, ast.Call) and isinstance(c.func, ast.Name) and c.func.id in _RESULT_HELPERS and cm.has_func(c.func.id):
+                hp = [a.arg for a in cm.func(c.func.id).node.args.args]
+                if "code" in hp and hp.index("code") < len(c.args) and isinstance(c.args[hp.index("code")], ast.Constant):
+                    code = c.args[hp.index("code")].value
         if valid is True:
             ok = (lo, hi) == (1, 1)
             what = f"accepts with len(matches) in [{lo},{hi}]"
